@@ -365,7 +365,7 @@ type mustOpts struct {
 	start        ssa.Instruction // start after this instruction (nil: function entry)
 	skipErrEdges bool            // do not follow the true edge of `err != nil`
 	stopAt       func(ssa.Instruction) bool
-	panicIsExit  bool // treat panic blocks as exits too (default: only returns)
+	panicIsExit  bool                                      // treat panic blocks as exits too (default: only returns)
 	skipEdge     func(b *ssa.BasicBlock, succIdx int) bool // do not follow these edges
 }
 
